@@ -204,6 +204,17 @@ def _edit(w, ev, st):
         w.insert_frame(fr_, models.Shift(ev["shift"][0]) & models.Scale(ev["shift"][1]), "focal")
     elif op == "bbox":
         w.bounding_box = None if ev["v"] is None else tuple(tuple(b) for b in ev["v"])
+    elif op == "param":
+        # a parameter of the sky step changed in place, through the model the pipeline hands out (re-pointing by a small angle)
+        t = w.pipeline[list(w.available_frames).index("focal")].transform
+        name = [n_ for n_ in t.param_names if n_.startswith("lon_") and "pole" not in n_][-1]
+        setattr(t, name, getattr(t, name).value + ev["delta"])
+        # ... and the focal plane re-centred (the linear part's translation: its inverse is computed, not shared)
+        name = [n_ for n_ in t.param_names if n_.startswith("translation")][0]
+        setattr(t, name, getattr(t, name).value + 1e-4 * ev["delta"])
+    elif op == "set_inverse":
+        # the user attaches an (approximate: distortion-free) analytic inverse to the first step's transform, in place
+        w.pipeline[0].transform.inverse = S.step1(dict(ev["params"], dist=None)).inverse
     elif op == "sep_instr":
         w.insert_transform("mid", _sep_t(ev["t"]), after=ev["after"])
     elif op == "sep_set":
@@ -299,7 +310,8 @@ def impl(case):
             try:
                 _edit(w, ev, None)
                 rec["ok"] = True
-                _EPOCH[0] += 1
+                if ev["op"] not in ("param", "set_inverse"):
+                    _EPOCH[0] += 1      # (a change made inside a model is invisible to the WCS: its memo of the initial guess stays)
             except Exception as e:
                 rec["ok"] = False
                 rec["err"] = C.exc_enum(e)
@@ -397,7 +409,9 @@ def request(case, res):
         return None
     evs = []
     for ev, rec in zip(case["events"], res["steps"]):
-        if ev["k"] == "edit":
+        if ev["k"] == "edit" and ev.get("op") in ("param", "set_inverse"):
+            evs.append({"k": "query", "inverting": False})      # a change inside a model: not an edit the WCS can see, its memo stays
+        elif ev["k"] == "edit":
             evs.append({"k": "edit", "ok": bool(rec["ok"])})
         elif ev["k"] in ("shape", "derived"):
             evs.append({"k": "query", "inverting": False})
@@ -410,6 +424,8 @@ def compare(case, res, resp):
     if "ok" not in resp:
         return "model error %s" % resp
     for n, (rec, m) in enumerate(zip(res["steps"], resp["ok"])):
+        if case["events"][n].get("motif"):
+            break      # (from here on the history holds changes made inside a model, which the memo model does not follow: answers only)
         if [rec["epoch"], rec["memo"]] != m:
             return ("after event %d (%s): implementation has edit count %s and an initial-guess memo computed at edit count %s; "
                     "model says %s" % (n, case["events"][n].get("op", case["events"][n].get("q")), rec["epoch"], rec["memo"], m))
@@ -547,6 +563,20 @@ def gen(rng, tier):
             events.append({"k": "edit", "op": "bbox", "v": None if rng.random() < 0.3 else
                            [[-0.5, rng.randint(300, 1200) - 0.5], [-0.5, rng.randint(300, 1200) - 0.5]]})
             events.append({"k": "query", "q": "forward", "pts": pts, "wbb": True})
+        if _ % 3 == 1 and not has_frame and not extra_shift:
+            # motif: ask upstream across the sky step, re-point that step in place, ask again
+            sky_pt = [cur2["crval"][0] + 0.003, cur2["crval"][1] - 0.002]
+            events.append({"k": "query", "q": "get", "from": "sky", "to": "focal", "pt": sky_pt})
+            events.append({"k": "edit", "op": "param", "delta": 0.0625})
+            events.append({"k": "query", "q": "get", "from": "sky", "to": "focal", "pt": sky_pt})
+        if _ % 3 == 2 and cur1["dist"] is not None and not has_frame and not extra_shift:
+            # motif: invert iteratively, attach a user inverse to the first step in place, invert again
+            d_ = cur2["scale"] * 200
+            c_ = max(0.05, np.cos(np.radians(cur2["crval"][1])))
+            wpts = [[cur2["crval"][0] + d_ / c_, cur2["crval"][1] + 0.5 * d_], [cur2["crval"][0] - 0.5 * d_ / c_, cur2["crval"][1] + d_]]
+            events.append({"k": "query", "q": "invert", "world": wpts, "inverting": bool(has_bbox), "motif": True})
+            events.append({"k": "edit", "op": "set_inverse", "params": cur1})
+            events.append({"k": "query", "q": "invert", "world": wpts, "inverting": False})
         yield {"params": p, "bbox0": bbox0, "events": events}
     # separable 3-axis WCS whose coupling pattern is changed by edits (incl. direct assignment to a pipeline step) between queries
     # that depend on the separability analysis (correlation matrix, -TAB grouping)
